@@ -48,7 +48,8 @@ def run_history(case, want_inv=True, want_atomic=True, stop_on_first=True):
     if want_inv:
         e0 = invariants.check_all(u)
         if e0:
-            raise RuntimeError(f"initial universe violates invariants: {e0}")
+            res["inv_fail"] = (f"{e0[0][0]}/construction", "universe built by constructors only: " + "; ".join(m for _, m in e0[:3]), -1)
+            return res
     node_graph_hist = {}
     for k, op in enumerate(ops):
         if not isinstance(op, list) or not op or not isinstance(op[0], str) or op[0] not in U.ALPHABET:
